@@ -17,12 +17,12 @@ META = dict(
               "k=2, all shapes on 4 atoms with <=3 bonds (hcount 0..1, charge 0); forward and "
               "invert=True; strategies all/comp/bt; implicit-hydrogen mode (implicit_temp=True, explicit_h=False); explicit-hydrogen "
               "mode (default flags) for two concrete templates with hydrogen atoms in the centre (keto-enol shift, MPV transfer "
-              "hydrogenation with two independent hydrogen migrations, esterification as full-ITS template with a non-migrating explicit hydrogen, deprotonation to a free H+, imine condensation with two hydrogens moving between the same pair of atoms) on their skeleton with symbolic substituents and every numbering",
+              "hydrogenation with two independent hydrogen migrations, esterification as full-ITS template with a non-migrating explicit hydrogen, deprotonation to a free H+, imine condensation with two hydrogens moving between the same pair of atoms) on their skeleton with symbolic substituents and every numbering; symbolic explicit-hydrogen reactions (explicit_sym: <=2 heavy atoms, <=3 hydrogens incl. free protons/hydrides, centre and full-ITS template, duplicated one-atom molecule); templates with one wildcard atom (two symbolic real atoms + a * atom whose bond is formed or broken) on 2-3 atom substrates whose node ids may have gaps",
         thorough="more strategy/direction combinations for k=3, all strategies on 4-atom substrates, k=3 templates without "
                  "hydrogens on 4-atom substrates",
     ),
-    outside=["smarts_list / _to_smarts (RDKit) and everything said about output strings", "templates with wildcards, "
-             "partial=True", "explicit-hydrogen mode beyond the two listed template families", "templates that are not balanced "
+    outside=["smarts_list / _to_smarts (RDKit) and everything said about output strings", "templates with more than one wildcard atom or with a wildcard whose bond does not change, "
+             "partial=True", "explicit-hydrogen mode beyond the listed families and the symbolic 1-3 hydrogen reactions", "templates that are not balanced "
              "over their centre (a centre only contains atoms incident to a changed bond; clause b is claimed for balanced "
              "templates only)"],
     stubs=["NoCanon canonicaliser passed through the public canonicaliser= parameter (identity, constant signature)"],
@@ -123,6 +123,51 @@ def h_instance(E, k, hn, hedges, strategy, invert, hmax_t=1, lite=False):
     info = dict(template_nodes=sorted(rc.nodes), template_edges=sorted(map(sorted, rc.edges)), host=hedges,
                 strategy=strategy, invert=invert, n_results=len(res))
     judge_results(E, res, host, rc, ts, invert, info)
+    E.note(nontrivial=len(res) > 0)
+    E.observe(len(res))
+
+
+def h_wild(E, hn, hedges, strategy, invert, ids=None):
+    """a template with a wildcard atom: two real atoms (fully symbolic, as in `instance`) plus one '*' atom whose bond to the
+    first real atom is formed or broken by the rule.  The reactor matches the real part and adds a placeholder atom for the
+    wildcard; apart from that placeholder every result must satisfy (a)-(c), and the placeholder must hang on one substrate
+    atom through exactly the template's wildcard bond.  Substrate node ids may have gaps."""
+    from synkit.Graph.ITS.its_construction import ITSConstruction
+    from synkit.Graph.ITS.its_decompose import get_rc
+
+    k = 2
+    Gt, Ht, ts = sym_reaction(E, "t", k, hs=(0, 1), ids=[11, 12])
+    wa, wb = [(1, 0), (0, 1)][int(E.int("wdir", 0, 1))]
+    for g, o in ((Gt, wa), (Ht, wb)):
+        g.add_node(13, element="*", aromatic=False, hcount=0, charge=0, atom_map=13)
+        if o:
+            g.add_edge(11, 13, order=o)
+    rc = get_rc(ITSConstruction.ITSGraph(Gt, Ht))
+    E.assume(balance_assumption(ts, [v for v in rc.nodes if v != 13]))
+    host = sym_substrate(E, "s", hn, hedges, hs=(0, 1), cs=(0,), ids=ids)
+    R = reactor(host, rc, strategy, invert)
+    res = R.its_list
+    info = dict(template_nodes=sorted(rc.nodes), host=hedges, host_ids=sorted(host.nodes), strategy=strategy, invert=invert,
+                wildcard_bond=(wa, wb), n_results=len(res))
+    want_w = (wb, wa) if invert else (wa, wb)
+    stripped, bad_w = [], []
+    for r in res:
+        extra = [v for v in r.nodes if v not in host.nodes]
+        ok = len(extra) == 1 and r.nodes[extra[0]]["typesGH"][0][0] == "*" and r.nodes[extra[0]]["typesGH"][1][0] == "*" \
+            and r.degree(extra[0]) == 1
+        if not ok:
+            bad_w.append(True)
+            continue
+        w = extra[0]
+        (x,) = list(r.neighbors(w))
+        bad_w.append(NOT(EQ(tuple(r[w][x]["order"]), want_w)))
+        r2 = r.copy()
+        r2.remove_node(w)
+        stripped.append(r2)
+    E.check(OR(bad_w), "wildcard-placeholder-hangs-on-one-atom-through-the-templates-bond", info)
+    rc_real = rc.subgraph([v for v in rc.nodes if v != 13]).copy()
+    if rc_real.number_of_nodes():
+        judge_results(E, stripped, host, rc_real, ts, invert, info)
     E.note(nontrivial=len(res) > 0)
     E.observe(len(res))
 
@@ -307,7 +352,7 @@ def h_explicit_sym(E, n, nh, invert, free=False, kind="rc", dup=False):
                                                    attach={"%s%d" % k: v for k, v in att.items()}))
 
 
-HARNESSES = {"instance": h_instance, "explicit": h_explicit, "explicit_sym": h_explicit_sym}
+HARNESSES = {"wild": h_wild, "instance": h_instance, "explicit": h_explicit, "explicit_sym": h_explicit_sym}
 
 
 def shards(tier, seed):
@@ -329,6 +374,10 @@ def shards(tier, seed):
                 sh.append(dict(h="instance", params=dict(k=2, hn=4, hedges=he, strategy=strategy, invert=False, lite=q)))
             if not q:
                 sh.append(dict(h="instance", params=dict(k=3, hn=4, hedges=he, strategy="all", invert=False, hmax_t=0, lite=True)))
+    # templates with a wildcard atom; substrates whose node ids have a gap
+    for he, ids in (([[1, 2]], [1, 2]), ([[1, 2]], [2, 5]), ([[1, 2], [2, 3]], [1, 2, 4])) + (() if q else (([], [1, 3]), ([[1, 2]], [3, 1, 7]))):
+        for strategy, invert in ((("all", False), ("bt", True)) if q else (("all", False), ("all", True), ("comp", False), ("bt", True))):
+            sh.append(dict(h="wild", params=dict(hn=len(ids), hedges=he, strategy=strategy, invert=invert, ids=ids)))
     for fam in ("enol", "MPV", "ester", "deprot", "imine", "redam"):
         sh.append(dict(h="explicit", params=dict(family=fam)))
     for nh in ((1, 2) if q else (1, 2, 3)):
